@@ -6,13 +6,14 @@ func init() {
 	verifHarnesses["VerifHarness_C06"] = VerifHarness_C06
 }
 
-// strictly below / above with a 2^-16 relative guard band: at an exact band
-// edge float64 may land on either side, and the property does not assign edges.
-func clearlyBelow(a, b int64) bool { return a*65536 < b*65535 }
-func clearlyAbove(a, b int64) bool { return a*65535 > b*65536 }
+// strictly below / above with a guard band of one unit plus a 2^-40 fraction of the bound: at an
+// exact band edge float64 (two roundings of 2^-53) may land on either side, and the property does
+// not assign the edges; anything further out is decided.
+func clearlyBelow(a, b int64) bool { return a+(b>>40)+1 <= b }
+func clearlyAbove(a, b int64) bool { return a >= b+(b>>40)+1 }
 
 // VerifHarness_C06: direction and taint rate follow the utilisation bands.
-// shape: [nodes, pods, class menu, cordon symbolic(0/1), triggers (0 none, 1 scale_on_starve, 2 max_node_age), memory-bound (0/1), prior uneventful scan (0/1), auto-discovered bounds (0/1), 64 TiB nodes (0/1)]
+// shape: [nodes, pods, class menu, cordon symbolic(0/1), triggers (0 none, 1 scale_on_starve, 2 max_node_age), memory-bound (0/1), prior uneventful scan (0/1), auto-discovered bounds (0/1), 64 TiB nodes (0/1), unevenly packed nodes with one pending pod (0/1)]
 func VerifHarness_C06() {
 	N, P, menu, cord, trig := verifShape(0), verifShape(1), verifShape(2), verifShape(3), verifShape(4)
 	w := newWorld(0)
@@ -48,7 +49,15 @@ func VerifHarness_C06() {
 	g := w.addGroup(o, asgMin0, maxEff, 0)
 	classes := [][]int{{tcNone}, {tcNone, tcEsc}, {tcNone, tcEscGarbage, tcEscEmpty, tcForce}}[menu]
 	w.symNodes("", g, N, classes, cord == 1, []int{0}, trig == 2)
-	if verifShape(5) == 1 {
+	uneven := verifShape(9) == 1
+	if uneven {
+		// unevenly packed nodes: the first node is short of CPU, the second short of memory; a third
+		// (pending) pod of symbolic size may fit on one of them, on neither, or on both
+		gi := int64(1 << 30)
+		w.addPod(g, 0, false, w.cpuPerNode*3/4, 1*gi, false)
+		w.addPod(g, 1, false, 100, 12*gi, false)
+		w.addPod(g, -1, false, verifInt("pending.cpu", 0, w.cpuPerNode+500), verifInt("pending.memGi", 0, 17)*gi, true)
+	} else if verifShape(5) == 1 {
 		// memory-bound: cpu fixed and small, memory symbolic
 		w.symPodMem = true
 		w.symPods("", g, P, 1, false, 10, false)
@@ -101,6 +110,28 @@ func VerifHarness_C06() {
 		verifAssert("C06.idle-band/trigger", verifImplies(bandIdle, verifOr(override, verifAnd(taints == 0, noCap))))
 		verifAssert("C06.scale-up-band/trigger", verifImplies(bandUp, override))
 		verifReachIf("C06.trigger-overrode", verifAnd(verifOr(bandFast, verifOr(bandSlow, bandIdle)), override))
+		if trig == 1 && uneven {
+			// scale_on_starve is documented to act when a pending pod fits on no node: an override
+			// below the scale-up band needs such a pod
+			pend := w.pods[len(w.pods)-1]
+			fitsSomewhere := false
+			for i, n := range w.nodes {
+				if n.group != g || n.class != tcNone || n.cordoned {
+					continue
+				}
+				usedCPU, usedMem := int64(0), int64(0)
+				for _, p := range w.pods {
+					if p.node == i {
+						usedCPU += p.cpu
+						usedMem += p.mem
+					}
+				}
+				fitsSomewhere = verifOr(fitsSomewhere, verifAnd(pend.cpu <= w.cpuPerNode-usedCPU, pend.mem <= w.memPerNode-usedMem))
+			}
+			below := verifOr(bandFast, verifOr(bandSlow, bandIdle))
+			verifAssert("C06.starve-trigger-needs-an-unschedulable-pod", verifImplies(verifAnd(below, override), verifNot(fitsSomewhere)))
+			verifReachIf("C06.pending-pod-fits-one-node-only", verifAnd(below, fitsSomewhere))
+		}
 	}
 	verifReachIf("C06.fast", verifAnd(bandFast, taints > 0))
 	verifReachIf("C06.slow", verifAnd(bandSlow, taints > 0))
